@@ -7,9 +7,13 @@
   of the program or of a `-r` selector — is the offset of a token of the text it is reported
   with (or of the offending byte of a lexical error); every token stored in a parsed AST carries
   such an offset; with the exceptions exhibited there (EOF token, blank selector).
+  Section 6 (added later): WHICH token each runtime fault blames — one theorem per place where
+  the evaluator raises a runtime error, naming the blamed token of the AST node being evaluated
+  (table: `blame_table`), and that this token belongs to the node (`blamed_token_in_node`).
 -/
 import Jqawk.Lemmas.Lexer
 import Jqawk.Lemmas.ProvenanceDriver
+import Jqawk.Lemmas.BlameSites
 
 namespace Jqawk.C12
 open Jqawk LineColLemmas
@@ -812,5 +816,722 @@ example : (match (evalProgram expectedRuleTable b!"{ print }" [b!"$.a +"]
       [⟨b!"f", b!"{\"a\":1}", .eof⟩]).outcome with
     | .syntaxErr s e => s == b!"$.a +" && e.pos == 4 | _ => false) = true := by
   decide +kernel
+
+
+/-! ### 6. which token a runtime fault blames
+
+  The evaluator raises a runtime error in 22 places of Jqawk/Model/Eval.lean and one of
+  Jqawk/Model/Driver.lean (`throwRt <pos> <msg>`; natives never raise with a position: they
+  return a plain error that `callFunction` raises at the call's token).  For each place there is
+  a theorem below of the shape: evaluating THIS node, with the sub-evaluations ending as stated,
+  yields `throwRt <token>.pos <msg> <state>` — i.e. (`throwRt_is_runtime`) the outcome
+  `Err.runtime <token>.pos <msg>` — where `<token>` is named in terms of the node.  Fuel is
+  explicit: the node is evaluated with one (or two) units more than its parts, and the
+  hypotheses say that the parts did not run out of fuel.
+
+  The blamed token is the one the Go code passes to `e.error(…)` at the corresponding place of
+  src/evaluator.go (compared place by place; the line numbers are in `blame_table`).
+  `Expr.token` is Go's `Node.Token()`: the node's own token for literals, identifiers, array /
+  object literals, `match` and unary nodes (the operator); for a binary node (also `a.b`, `a[b]`,
+  `a = b`) the token of its LEFT operand, for a call `f(…)` the token of the callee expression —
+  hence always the LEFTMOST token of such a chain (`$` in `$.a.b.push(1)`).
+
+  The messages are the model's: where Go interpolates the value kind or operator into the message
+  (`attempted to call a %s`, `%s is not iterable`, `unknown operator %s`, `%s not supported in
+  match expressions`) the model has a fixed text (messages are not part of the compared
+  behaviour; positions are). -/
+
+open BlameSites
+
+section Blame
+variable (prog : Program)
+
+/-- raising a runtime error: the outcome is `Err.runtime pos msg`; the state is the one it was
+    raised in, with the two ghost counters updated -/
+theorem throwRt_is_runtime {α : Type} (pos : Nat) (msg : String) (s : St) :
+    (throwRt pos msg s : Res α) =
+      .err (.runtime pos msg) { s with faults := s.faults + 1, faultOut := s.out.length } := rfl
+
+/-! #### binary operators (Eval.lean `evalBinary`; evaluator.go:569-726) -/
+
+/-- C12, site `binaryOp … = .err` (Eval.lean:444-446; evaluator.go:644, 682, 689, 704, 709), in
+    general: an operator of the table (`== != < <= > >=`, `+ - * / %`, `~ !~`) whose value-level
+    result on the two operand values is an error blames **the right operand's token for the two
+    pattern errors of `~` / `!~`, the left operand's token for a failed comparison, the operator
+    token otherwise (division / remainder by zero)**. -/
+theorem blame_table_operator (n : Nat) (l r : Expr) (op : Token) (hop : isTableOp op.tag = true)
+    (s s1 s2 : St) (cl cr : CellId)
+    (hl : evalExpr prog n l s = .ok cl s1) (hr : evalExpr prog n r s1 = .ok cr s2)
+    (atRight : Bool) (m : String)
+    (hb : binaryOp op.tag (s2.heap.get cl) (s2.heap.get cr) = .err atRight m) :
+    evalExpr prog (n + 2) (.binary l r op) s =
+      throwRt (if atRight then r.token.pos
+               else if isCompareOp op.tag then l.token.pos else op.pos) m s2 := by
+  rw [evalExpr_binary, evalBinary_table prog n l r op hop s s1 s2 cl cr hl hr, hb]; rfl
+
+/-- C12: **`a / b` with `num(b)` zero and `a % b` with `trunc(num(b))` zero blame the operator
+    token** (`/` or `%`) of that binary node, with "divide by zero" (evaluator.go:682, 689:
+    `e.error(expr.OpToken, …)`) -/
+theorem blame_divide_by_zero (n : Nat) (l r : Expr) (op : Token)
+    (s s1 s2 : St) (cl cr : CellId)
+    (hl : evalExpr prog n l s = .ok cl s1) (hr : evalExpr prog n r s1 = .ok cr s2)
+    (hz : (op.tag = .divide ∧ (s2.heap.get cr).asNum.isZero = true) ∨
+          (op.tag = .percent ∧ (s2.heap.get cr).asNum.toGoInt = 0)) :
+    evalExpr prog (n + 2) (.binary l r op) s = throwRt op.pos "divide by zero" s2 := by
+  rcases hz with ⟨ht, hz⟩ | ⟨ht, hz⟩
+  · have := blame_table_operator prog n l r op (by rw [ht]; decide) s s1 s2 cl cr hl hr false
+      "divide by zero" (by rw [ht]; simp [binaryOp, isCompareOp, isArithOp, hz])
+    rw [this, ht]; rfl
+  · have := blame_table_operator prog n l r op (by rw [ht]; decide) s s1 s2 cl cr hl hr false
+      "divide by zero" (by rw [ht]; simp [binaryOp, isCompareOp, isArithOp, hz])
+    rw [this, ht]; rfl
+
+/-- C12: **a comparison whose operands cannot be compared** (an array or object against anything
+    but null / unset) **blames the token of the LEFT operand** (evaluator.go:644:
+    `e.error(expr.Left.Token(), …)`), not the operator -/
+theorem blame_cannot_compare (n : Nat) (l r : Expr) (op : Token) (hop : isCompareOp op.tag = true)
+    (s s1 s2 : St) (cl cr : CellId)
+    (hl : evalExpr prog n l s = .ok cl s1) (hr : evalExpr prog n r s1 = .ok cr s2)
+    (hu : (s2.heap.get cl).kind ≠ .unknown ∧ (s2.heap.get cr).kind ≠ .unknown) (m : String)
+    (hc : (s2.heap.get cl).compare (s2.heap.get cr) = .error m) :
+    evalExpr prog (n + 2) (.binary l r op) s = throwRt l.token.pos m s2 := by
+  have := blame_table_operator prog n l r op (by simp [isTableOp, hop]) s s1 s2 cl cr hl hr false m
+    (by simp [binaryOp, hop, hu.1, hu.2, hc])
+  rw [this]; simp [hop]
+
+/-- C12: **`a ~ b` / `a !~ b` whose right operand is neither a string nor a regex, or is an
+    invalid pattern, blames the token of the RIGHT operand** (evaluator.go:704, 709:
+    `e.error(expr.Right.Token(), …)`) -/
+theorem blame_regex_operand (n : Nat) (l r : Expr) (op : Token)
+    (hop : op.tag = .tilde ∨ op.tag = .bangTilde)
+    (s s1 s2 : St) (cl cr : CellId)
+    (hl : evalExpr prog n l s = .ok cl s1) (hr : evalExpr prog n r s1 = .ok cr s2) :
+    ((∀ p sp, s2.heap.get cr ≠ .str p sp) → (∀ p, s2.heap.get cr ≠ .regex p) →
+      evalExpr prog (n + 2) (.binary l r op) s =
+        throwRt r.token.pos "a regex or a string must appear on the right hand side of ~" s2) ∧
+    (∀ p, (s2.heap.get cr = .regex p ∨ ∃ sp, s2.heap.get cr = .str p sp) →
+      Re.compile p = .invalid →
+      evalExpr prog (n + 2) (.binary l r op) s = throwRt r.token.pos "invalid regex" s2) := by
+  have ht : isTableOp op.tag = true := by rcases hop with h | h <;> rw [h] <;> decide
+  have hnc : isCompareOp op.tag = false ∧ isArithOp op.tag = false := by
+    rcases hop with h | h <;> rw [h] <;> decide
+  refine ⟨fun h1 h2 => ?_, fun p hp hinv => ?_⟩
+  · have hb : binaryOp op.tag (s2.heap.get cl) (s2.heap.get cr) =
+        .err true "a regex or a string must appear on the right hand side of ~" := by
+      simp only [binaryOp, hnc.1, hnc.2, Bool.false_eq_true, ↓reduceIte]
+    exact (blame_table_operator prog n l r op ht s s1 s2 cl cr hl hr true _ hb).trans rfl
+  · have hb : binaryOp op.tag (s2.heap.get cl) (s2.heap.get cr) = .err true "invalid regex" := by
+      simp only [binaryOp, hnc.1, hnc.2, Bool.false_eq_true, ↓reduceIte]
+      rcases hp with hv | ⟨sp, hv⟩ <;> simp only [hv, hinv]
+    exact (blame_table_operator prog n l r op ht s s1 s2 cl cr hl hr true _ hb).trans rfl
+
+/-- C12, site Eval.lean:434 (evaluator.go:573): **`a is X` where `X` is not an identifier node
+    blames X's token** -/
+theorem blame_is_type_name (n : Nat) (l r : Expr) (op : Token) (hop : op.tag = .is)
+    (hr : ∀ t, r ≠ .ident t) (s s1 : St) (cl : CellId) (hl : evalExpr prog n l s = .ok cl s1) :
+    evalExpr prog (n + 2) (.binary l r op) s = throwRt r.token.pos "expected a type name" s1 := by
+  rw [evalExpr_binary]; exact evalBinary_is_other prog n l r op hop hr s s1 cl hl
+
+/-- C12, site Eval.lean:448 (evaluator.go:726): **a binary node whose operator token is none of
+    the operators `evalBinary` knows blames that operator token** (after evaluating both
+    operands) -/
+theorem blame_unknown_binary_operator (n : Nat) (l r : Expr) (op : Token)
+    (hop : isBinaryTag op.tag = false) (s s1 s2 : St) (cl cr : CellId)
+    (hl : evalExpr prog n l s = .ok cl s1) (hr : evalExpr prog n r s1 = .ok cr s2) :
+    evalExpr prog (n + 2) (.binary l r op) s = throwRt op.pos "unknown operator" s2 := by
+  rw [evalExpr_binary]; exact evalBinary_unknown prog n l r op hop s s1 s2 cl cr hl hr
+
+/-- C12, site Eval.lean:203 via :438 (evaluator.go:600): **a member / index access `a.b`, `a[b]`
+    whose lookup fails** (array index before the start: "index out of range"; an object or
+    prototype indexed with something that is neither number nor string) **blames the token of the
+    LEFT operand `a`** — for a chain `x.a[b]` the leftmost token `x` -/
+theorem blame_member_access (n : Nat) (l r : Expr) (op : Token)
+    (hop : op.tag = .dot ∨ op.tag = .lsquare) (s s1 s2 : St) (cl cr : CellId)
+    (hl : evalExpr prog n l s = .ok cl s1) (hr : evalExpr prog n r s1 = .ok cr s2) (m : String)
+    (hk : (s2.heap.get cl).kind ≠ .unknown)
+    (hg : getMember s2.heap (s2.heap.get cl) (s2.heap.get cr) = .error m) :
+    evalExpr prog (n + 2) (.binary l r op) s = throwRt l.token.pos m s2 := by
+  rw [evalExpr_binary, evalBinary_member prog n l r op hop s s1 s2 cl cr hl hr]
+  exact memberStep_err _ _ _ _ m hk hg
+
+/-- C12, sites Eval.lean:99 and :103 via :439 (evaluator.go:820, 826): **a failed assignment
+    `a = b` blames the token of the LEFT side `a`** (for `x.a.b = 1` the leftmost token `x`):
+    (1) the target is a member that does not exist yet (or a method, or a character of a
+    string) and cannot be created — `createSpeculative` fails, e.g. "cannot set member on a
+    scalar"; (2) the target exists and the value cannot be copied (a function). -/
+theorem blame_assignment (n : Nat) (l r : Expr) (op : Token) (hop : op.tag = .equal)
+    (s s1 s2 : St) (cl cr : CellId)
+    (hl : evalExpr prog n l s = .ok cl s1) (hr : evalExpr prog n r s1 = .ok cr s2) (m : String) :
+    (∀ s', needsCreate (s2.heap.get cl) = true →
+      createSpeculative (s2.heap.cells.size + 2) cl s2 = .ok (.error m) s' →
+      evalExpr prog (n + 2) (.binary l r op) s = throwRt l.token.pos m s') ∧
+    (needsCreate (s2.heap.get cl) = false → copyVal (s2.heap.get cr) = .error m →
+      evalExpr prog (n + 2) (.binary l r op) s = throwRt l.token.pos m s2) := by
+  rw [evalExpr_binary, evalBinary_assign prog n l r op hop s s1 s2 cl cr hl hr]
+  exact ⟨fun s' hn hc => evalAssignment_create_err _ _ _ _ s' m hn hc,
+    fun hn hc => evalAssignment_copy_err _ _ _ _ m hn hc⟩
+
+/-! #### unary operators (Eval.lean `evalUnary`; evaluator.go:461-500) -/
+
+/-- C12, site Eval.lean:99 via :410 (evaluator.go:820 called from :486 with `expr` = the unary
+    node, whose `Token()` is the operator): **`a++`, `a--`, `++a`, `--a` whose operand is a
+    member that cannot be created blames the OPERATOR token** (`++` / `--`), not the operand.
+    (The other error of assignment, an uncopyable value, cannot occur: the value is a number.) -/
+theorem blame_incdec (n : Nat) (e : Expr) (op : Token) (p : Bool)
+    (hop : op.tag = .plusPlus ∨ op.tag = .minusMinus) (s s1 s' : St) (c : CellId)
+    (he : evalExpr prog n e s = .ok c s1) (m : String)
+    (hn : needsCreate (s1.heap.get c) = true) (hlt : c < s1.heap.cells.size)
+    (hc : createSpeculative (s1.heap.cells.size + 1 + 2) c
+      { s1 with heap := (s1.heap.alloc (.num (stepOp op.tag (s1.heap.get c)))).2 } = .ok (.error m) s') :
+    evalExpr prog (n + 2) (.unary e op p) s = throwRt op.pos m s' := by
+  rw [evalExpr_unary, evalUnary_step prog n e op p hop s s1 c he]
+  have hget : (s1.heap.alloc (.num (stepOp op.tag (s1.heap.get c)))).2.get c = s1.heap.get c :=
+    Heap.get_push_old _ _ _ hlt
+  have := evalAssignment_create_err op.pos c s1.heap.cells.size
+    { s1 with heap := (s1.heap.alloc (.num (stepOp op.tag (s1.heap.get c)))).2 } s' m
+    (by rw [hget]; exact hn) (by simpa [Heap.alloc] using hc)
+  simp only [bind, EM.bind, newCell]
+  rw [show (s1.heap.alloc (Val.num (stepOp op.tag (s1.heap.get c)))).1 = s1.heap.cells.size from rfl,
+    this]
+  rfl
+
+/-- C12, site Eval.lean:413 (evaluator.go:498): **a unary node whose operator token is none of
+    `! + - ++ --` blames that operator token** -/
+theorem blame_unknown_unary_operator (n : Nat) (e : Expr) (op : Token) (p : Bool)
+    (hop : isUnaryTag op.tag = false) (s s1 : St) (c : CellId)
+    (he : evalExpr prog n e s = .ok c s1) :
+    evalExpr prog (n + 2) (.unary e op p) s = throwRt op.pos "unknown operator" s1 := by
+  rw [evalExpr_unary]; exact evalUnary_unknown prog n e op p hop s s1 c he
+
+/-! #### literals and identifiers (evaluator.go:160-176, 205-235) -/
+
+/-- C12, site Eval.lean:241 (evaluator.go:213): **a string literal (or the field name of `a.b`)
+    with a bad escape blames the literal's token** — whose position is the first byte after the
+    opening quote -/
+theorem blame_string_literal (n : Nat) (t : Token) (ht : t.tag = .str ∨ t.tag = .ident)
+    (m : String) (hm : evalStringLit t.text = .error m) (s : St) :
+    evalExpr prog (n + 1) (.lit t) s = throwRt t.pos m s :=
+  evalExpr_lit_str_err prog n t ht m hm s
+
+/-- C12, site Eval.lean:246 (evaluator.go:227): **a number literal that does not parse blames
+    the literal's token** -/
+theorem blame_number_literal (n : Nat) (t : Token) (ht : t.tag = .num)
+    (hm : F64.parse t.text = none) (s : St) :
+    evalExpr prog (n + 1) (.lit t) s = throwRt t.pos "could not parse number" s :=
+  evalExpr_lit_num_err prog n t ht hm s
+
+/-- C12, site Eval.lean:276 (evaluator.go:166): **`$` outside a rule (no current record) blames
+    the `$` token** -/
+theorem blame_dollar (n : Nat) (t : Token) (ht : t.tag = .dollar) (s : St)
+    (hr : s.ruleRoot = none) :
+    evalExpr prog (n + 1) (.ident t) s = throwRt t.pos "unknown variable $" s := by
+  rw [evalExpr_ident]; exact getIdentifier_dollar_err prog t ht s hr
+
+/-- C12, site Eval.lean:280 (evaluator.go:172): **an unknown `$name` variable blames that
+    identifier token** (every other unknown name is created, so this is the only error) -/
+theorem blame_dollar_variable (n : Nat) (t : Token) (ht : t.tag ≠ .dollar) (s : St)
+    (hl : lookupFrames s.frames t.text = none) (hd : t.text.head? = some 36) :
+    evalExpr prog (n + 1) (.ident t) s = throwRt t.pos "unknown variable" s := by
+  rw [evalExpr_ident]; exact getIdentifier_var_err prog t ht s hl hd
+
+/-! #### object / array literals and argument lists (evaluator.go:322-333, 870-890) -/
+
+/-- C12, site Eval.lean:290 via :267 (evaluator.go:329): **an object literal one of whose member
+    values cannot be copied (a function) blames the literal's own token, the `{`** — not the
+    member.  For a member at ANY position: the members before it (`pre`) evaluate and copy
+    (`BlameSites.CopiedKV`, fuel going from `K` down to `n + 1`). -/
+theorem blame_object_literal {K n : Nat} (t : Token) {pre : List (Bytes × Expr)}
+    {acc' : List (Bytes × CellId)} {s s' : St}
+    (hpre : CopiedKV prog K pre [] s (n + 1) acc' s') (k : Bytes) (e : Expr)
+    (rest : List (Bytes × Expr)) (s1 : St) (c : CellId) (m : String)
+    (he : evalExpr prog n e s' = .ok c s1) (hc : copyVal (s1.heap.get c) = .error m) :
+    evalExpr prog (K + 1) (.obj t (pre ++ (k, e) :: rest)) s =
+      throwRt t.pos m { s1 with heap := (s1.heap.alloc .unknown).2 } := by
+  rw [evalExpr_obj]
+  simp only [bind, EM.bind, evalObjItems_copy_err_at prog hpre t.pos k e rest s1 c m he hc]
+  rfl
+
+/-- C12, site Eval.lean:302 via :260 (evaluator.go:883): **an array literal one of whose elements
+    cannot be copied (a function) blames THAT element's token**, not the `[`.  For an element at
+    any position: the elements before it evaluate and copy (`BlameSites.Copied`). -/
+theorem blame_array_element {K n : Nat} (t : Token) {pre : List Expr} {s s' : St}
+    (hpre : Copied prog K pre s (n + 1) s') (e : Expr) (rest : List Expr)
+    (s1 : St) (c : CellId) (m : String)
+    (he : evalExpr prog n e s' = .ok c s1) (hc : copyVal (s1.heap.get c) = .error m) :
+    evalExpr prog (K + 1) (.arr t (pre ++ e :: rest)) s =
+      throwRt e.token.pos m { s1 with heap := (s1.heap.alloc (.str [] none)).2 } := by
+  rw [evalExpr_arr]
+  simp only [bind, EM.bind, evalExprList_copy_err_at prog hpre e rest s1 c m he hc]
+  rfl
+
+/-- C12, site Eval.lean:302 via :257 (evaluator.go:883): **a call one of whose arguments cannot be
+    copied (a function passed as argument) blames THAT argument's token**, not the callee.  For
+    an argument at any position (the callee is evaluated first, then the arguments in order). -/
+theorem blame_call_argument {K n : Nat} (f : Expr) {pre : List Expr} {s s0 s' : St} (fc : CellId)
+    (hf : evalExpr prog K f s = .ok fc s0)
+    (hpre : Copied prog K pre s0 (n + 1) s') (e : Expr) (rest : List Expr)
+    (s1 : St) (c : CellId) (m : String)
+    (he : evalExpr prog n e s' = .ok c s1) (hc : copyVal (s1.heap.get c) = .error m) :
+    evalExpr prog (K + 1) (.call f (pre ++ e :: rest)) s =
+      throwRt e.token.pos m { s1 with heap := (s1.heap.alloc (.str [] none)).2 } := by
+  rw [evalExpr_call]
+  simp only [bind, EM.bind, hf, evalExprList_copy_err_at prog hpre e rest s1 c m he hc]
+  rfl
+
+/-- non-vacuity of the "elements before it" hypotheses: a one-element prefix, `true` -/
+example : ∃ s', Copied Program.empty 2 [.lit ⟨.true_, 5, []⟩] default 1 s' :=
+  ⟨_, .cons (c := 0) (w := .bool true)
+    (s1 := { (default : St) with heap := (Heap.empty.alloc (.bool true)).2 })
+    (by with_unfolding_all rfl) (by decide) (by rfl) (.nil _ _)⟩
+example : ∃ acc' s', CopiedKV Program.empty 2 [(b!"a", .lit ⟨.true_, 5, []⟩)] [] default 1 acc' s' :=
+  ⟨_, _, .cons (c := 0) (w := .bool true)
+    (s1 := { (default : St) with heap := (Heap.empty.alloc (.bool true)).2 })
+    (by with_unfolding_all rfl) (by decide) (by rfl) (.nil _ _ _)⟩
+
+/-! #### calls (Eval.lean `callFunction`; evaluator.go:411-457) -/
+
+/-- C12, sites Eval.lean:379, :388, :394 via :258 (evaluator.go:415, 427, 456,
+    `e.error(exp.Token(), …)` with `exp` the call node): **every error of a call — calling
+    something that is not a function; an error returned by a native function or method (wrong
+    receiver kind, wrong / missing arguments, …); the call depth limit — blames the token of the
+    callee expression** (`f` in `f(1)`; the leftmost token `$` in `$.a.push(1)`). -/
+theorem blame_call (n : Nat) (f : Expr) (args : List Expr) (s s1 s2 : St) (fc : CellId)
+    (acs : List CellId)
+    (hf : evalExpr prog (n + 1) f s = .ok fc s1)
+    (ha : evalExprList prog (n + 1) args true s1 = .ok acs s2) :
+    ((∀ g b sp, s2.heap.get fc ≠ .native g b sp) → (∀ i, s2.heap.get fc ≠ .fn i) →
+      evalExpr prog (n + 2) (.call f args) s =
+        throwRt f.token.pos "attempted to call a non-function" s2) ∧
+    (∀ g b sp m s', s2.heap.get fc = .native g b sp →
+      callNative g (acs.map s2.heap.get) (b.map s2.heap.get) s2 = .ok (.error m) s' →
+      evalExpr prog (n + 2) (.call f args) s = throwRt f.token.pos m s') ∧
+    (∀ i fd, s2.heap.get fc = .fn i → prog.functions[i]? = some fd →
+      s2.frames.length > callDepthLimit →
+      evalExpr prog (n + 2) (.call f args) s =
+        throwRt f.token.pos "call depth limit exceeded" s2) := by
+  rw [evalExpr_call]
+  simp only [bind, EM.bind, hf, ha]
+  exact ⟨fun h1 h2 => callFunction_not_fn prog n _ fc acs s2 h1 h2,
+    fun g b sp m s' hv hc => callFunction_native_err prog n _ fc acs s2 s' g b sp m hv hc,
+    fun i fd hv hfd hd => callFunction_depth_err prog n _ fc acs s2 i fd hv hfd hd⟩
+
+/-! #### match (evaluator.go:276-395) -/
+
+/-- C12, site Eval.lean:318 via :265 (evaluator.go:290): **the call depth limit reached when a
+    `match` arm is entered blames the `match` keyword token.**  For a case at any position: the
+    cases before it (`pre`) do not match (`BlameSites.Skipped`). -/
+theorem blame_match_depth {K n : Nat} (t : Token) (v : Expr) {pre : List MatchCase}
+    (pats : List Expr) (body : Stmt)
+    (rest : List MatchCase) {s s0 s1 : St} (s2 : St) {value : CellId} (b : List (Bytes × CellId))
+    (hv : evalExpr prog K v s = .ok value s0)
+    (hpre : Skipped prog K pre value s0 (n + 1) s1)
+    (hm : evalCaseMatch prog n value pats s1 = .ok (some b) s2)
+    (hd : s2.frames.length > callDepthLimit) :
+    evalExpr prog (K + 1) (.match_ t v (pre ++ .mk pats body :: rest)) s =
+      throwRt t.pos "call depth limit exceeded" s2 := by
+  rw [evalExpr_match]
+  simp only [bind, EM.bind, hv]
+  rw [evalMatchCases_skipped prog hpre]
+  exact evalMatchCases_depth_err prog n t.pos value pats body rest s1 s2 b hm hd
+
+/-- C12, site Eval.lean:346 (evaluator.go:375): **a match pattern that is neither a literal, an
+    array pattern nor an identifier blames that pattern's token** (`Expr.token`: e.g. the
+    operator of a unary pattern `-1`, the leftmost token of `a.b`).  At the level of
+    `evalCaseMatch`, which handles the alternatives of a case AND (one at a time) the elements
+    of an array pattern: so the statement covers nested patterns too.  For an alternative at
+    any position: the alternatives before it do not match (`BlameSites.AltsSkipped`). -/
+theorem blame_match_pattern_unsupported {K n : Nat} {value : CellId} {pre : List Expr} {s s' : St}
+    (hpre : AltsSkipped prog K pre value s (n + 1) s') (p : Expr) (rest : List Expr)
+    (hp : patSupported p = false) :
+    evalCaseMatch prog K value (pre ++ p :: rest) s =
+      throwRt p.token.pos "not supported in match expressions" s' := by
+  rw [evalCaseMatch_skipped prog hpre]
+  exact evalCaseMatch_unsupported prog n value p rest s' hp
+
+/-- C12, site Eval.lean:339 (evaluator.go:354): **a literal pattern that cannot be compared with
+    the subject (the subject is an array or object, the literal is not null) blames the
+    literal's token.**  Same level and generality as `blame_match_pattern_unsupported`. -/
+theorem blame_match_literal {K n : Nat} {value : CellId} {pre : List Expr} {s s' : St}
+    (hpre : AltsSkipped prog K pre value s (n + 1) s') (t : Token) (rest : List Expr)
+    (s1 : St) (c : CellId) (m : String)
+    (he : evalExpr prog n (.lit t) s' = .ok c s1)
+    (hk : (s1.heap.get value).kind ≠ .unknown)
+    (hc : (s1.heap.get value).compare (s1.heap.get c) = .error m) :
+    evalCaseMatch prog K value (pre ++ .lit t :: rest) s = throwRt t.pos m s1 := by
+  rw [evalCaseMatch_skipped prog hpre]
+  exact evalCaseMatch_lit_err prog n value t rest s' s1 c m he hk hc
+
+/-- … both seen from the `match` node: the error of testing the patterns of a case (whatever
+    it is: `r` is `throwRt <pattern token>.pos …` by the two theorems above) is the result of
+    the whole `match`, for a case at any position -/
+theorem blame_match_pattern_node {K n : Nat} (t : Token) (v : Expr) {pre : List MatchCase}
+    (pats : List Expr) (body : Stmt) (rest : List MatchCase) {s s0 s1 : St} {value : CellId}
+    (hv : evalExpr prog K v s = .ok value s0)
+    (hpre : Skipped prog K pre value s0 (n + 1) s1) (e : Err) (s2 : St)
+    (hm : evalCaseMatch prog n value pats s1 = .err e s2) :
+    evalExpr prog (K + 1) (.match_ t v (pre ++ .mk pats body :: rest)) s = .err e s2 := by
+  rw [evalExpr_match]
+  simp only [bind, EM.bind, hv]
+  rw [evalMatchCases_skipped prog hpre]
+  unfold evalMatchCases
+  simp only [bind, EM.bind, hm]
+
+/-- non-vacuity of the "cases / alternatives before it do not match" hypotheses: the subject is
+    `false`, the case / alternative before is the literal `true` -/
+example : ∃ s', Skipped Program.empty 3 [.mk [.lit ⟨.true_, 5, []⟩] (.expr (.lit ⟨.null, 9, []⟩))] 0
+    { (default : St) with heap := (Heap.empty.alloc (.bool false)).2 } 2 s' :=
+  ⟨_, .cons (s1 := { (default : St) with heap := ((Heap.empty.alloc (.bool false)).2.alloc (.bool true)).2 })
+   (by with_unfolding_all rfl) (.nil _ _ _)⟩
+example : ∃ s', AltsSkipped Program.empty 2 [.lit ⟨.true_, 5, []⟩] 0
+    { (default : St) with heap := (Heap.empty.alloc (.bool false)).2 } 1 s' :=
+  ⟨_, .cons (s1 := { (default : St) with heap := ((Heap.empty.alloc (.bool false)).2.alloc (.bool true)).2 })
+   (by with_unfolding_all rfl) (.nil _ _ _)⟩
+
+/-! #### `for (x in e)` (evaluator.go:1010-1076) -/
+
+/-- C12, sites Eval.lean:491, :497 (evaluator.go:1014, 1022, `e.error(st.Token(), …)` where
+    `StatementForIn.Token()` is the loop variable): **an unknown `$name` as loop variable blames
+    the loop variable's token; an unknown `$name` as INDEX variable ALSO blames the (first) loop
+    variable's token**, not the index variable's (the Go code passes `st.Token()` in both). -/
+theorem blame_forin_variable (n : Nat) (id : Token) (iter : Expr) (body : Stmt) :
+    (∀ idx s, lookupFrames s.frames id.text = none → id.text.head? = some 36 →
+      evalStmt prog (n + 1) (.forIn id idx iter body) s = throwRt id.pos "unknown variable" s) ∧
+    (∀ it s s1 c, getVariable id.text s = .ok (.ok c) s1 →
+      lookupFrames s1.frames it.text = none → it.text.head? = some 36 →
+      evalStmt prog (n + 1) (.forIn id (some it) iter body) s =
+        throwRt id.pos "unknown variable" s1) :=
+  ⟨fun idx s hl hd => forIn_ident_err prog n id idx iter body s hl hd,
+   fun it s s1 c hv hl hd => forIn_index_err prog n id it iter body s s1 c hv hl hd⟩
+
+/-- C12, site Eval.lean:511 (evaluator.go:1075): **`for (x in e)` / `for (x, i in e)` over a
+    value that is not an array, object or string blames e's token** (`Expr.token` of the
+    iterable expression) -/
+theorem blame_forin_not_iterable (n : Nat) (id : Token) (iter : Expr) (body : Stmt)
+    (s s1 s2 : St) (c ci : CellId) (hv : getVariable id.text s = .ok (.ok c) s1) :
+    (evalExpr prog n iter s1 = .ok ci s2 → iterable (s2.heap.get ci) = false →
+      evalStmt prog (n + 1) (.forIn id none iter body) s =
+        throwRt iter.token.pos "not iterable" s2) ∧
+    (∀ it s1' c', getVariable it.text s1 = .ok (.ok c') s1' →
+      evalExpr prog n iter s1' = .ok ci s2 → iterable (s2.heap.get ci) = false →
+      evalStmt prog (n + 1) (.forIn id (some it) iter body) s =
+        throwRt iter.token.pos "not iterable" s2) :=
+  ⟨fun he hk => forIn_not_iterable prog n id iter body s s1 s2 c ci hv he hk,
+   fun it s1' c' hv' he hk => forIn_not_iterable_idx prog n id it iter body s s1 s1' s2 c c' ci hv hv' he hk⟩
+
+end Blame
+
+/-! #### the `-r` selector (Driver.lean:172; evaluator.go:1203) -/
+
+/-- C12, site Driver.lean:172: **a `-r` selector whose value cannot be copied (it selects a
+    method or a function) blames the selector expression's token** (`Expr.token`: the leftmost
+    token, `$` in `$.length`), reported with the selector's text (`evalSelector`). -/
+theorem blame_selector_copy (rootValue : JVal) (expr : Expr) (s s0 s1 : St) (v : Val) (c : CellId)
+    (m : String) (hv : newValueJson rootValue s = .ok v s0)
+    (he : evalExpr Program.empty evalFuel expr (selectorStart v s0) = .ok c s1)
+    (hc : copyVal (s1.heap.get c) = .error m) :
+    selectorRun rootValue expr s =
+      throwRt expr.token.pos m { s1 with heap := (s1.heap.alloc .unknown).2 } :=
+  selectorRun_copy_err rootValue expr s s0 s1 v c m hv he hc
+
+/-! #### the blamed token belongs to the faulting node -/
+
+/-- `Expr.token` is one of the node's own tokens -/
+theorem token_mem_tokens (kw : Bool) : ∀ e : Expr, e.token ∈ e.tokens kw
+  | .lit t => by simp [Expr.token, Expr.tokens]
+  | .ident t => by simp [Expr.token, Expr.tokens]
+  | .arr t items => by simp [Expr.token, Expr.tokens]
+  | .obj t items => by simp [Expr.token, Expr.tokens]
+  | .unary e op p => by simp [Expr.token, Expr.tokens]
+  | .binary l r op => by
+    have := token_mem_tokens kw l
+    simp [Expr.token, Expr.tokens, this]
+  | .call f args => by
+    have := token_mem_tokens kw f
+    simp [Expr.token, Expr.tokens, this]
+  | .match_ t v cases => by simp [Expr.token, Expr.tokens]
+
+theorem tokens_sub_tokensEs (kw : Bool) (e : Expr) : ∀ es : List Expr, e ∈ es →
+    ∀ t ∈ e.tokens kw, t ∈ tokensEs kw es
+  | [], h => by cases h
+  | x :: xs, h => by
+    intro t ht
+    simp only [tokensEs, List.mem_append]
+    rcases List.mem_cons.mp h with rfl | h
+    · exact .inl ht
+    · exact .inr (tokens_sub_tokensEs kw e xs h t ht)
+
+/-- C12: **every token blamed by the theorems of this section is one of the tokens of the node
+    whose evaluation faulted** (`Expr.tokens` / `Stmt.tokens`: the tokens stored in that subtree):
+    operator and both operands' tokens of a binary node; the operator of a unary node; the callee's
+    token and each argument's token of a call; each element's token of an array literal; the `{`
+    of an object literal; the `match` keyword and each top-level pattern's token; the loop
+    variable and the iterable's token of `for … in`.  So the reported column is the first byte of
+    a token INSIDE the offending construct (see `blame_table`). -/
+theorem blamed_token_in_node (kw : Bool) :
+    (∀ l r op, op ∈ (Expr.binary l r op).tokens kw ∧ l.token ∈ (Expr.binary l r op).tokens kw ∧
+      r.token ∈ (Expr.binary l r op).tokens kw) ∧
+    (∀ e op p, op ∈ (Expr.unary e op p).tokens kw) ∧
+    (∀ f args, f.token ∈ (Expr.call f args).tokens kw ∧
+      ∀ a ∈ args, a.token ∈ (Expr.call f args).tokens kw) ∧
+    (∀ t items, ∀ a ∈ items, a.token ∈ (Expr.arr t items).tokens kw) ∧
+    (∀ t items, t ∈ (Expr.obj t items).tokens kw) ∧
+    (∀ t v pats body rest, t ∈ (Expr.match_ t v (.mk pats body :: rest)).tokens kw ∧
+      ∀ p ∈ pats, p.token ∈ (Expr.match_ t v (.mk pats body :: rest)).tokens kw) ∧
+    (∀ id idx iter body, id ∈ (Stmt.forIn id idx iter body).tokens kw ∧
+      iter.token ∈ (Stmt.forIn id idx iter body).tokens kw) ∧
+    (∀ e : Expr, e.token ∈ e.tokens kw) := by
+  refine ⟨fun l r op => ?_, fun e op p => ?_, fun f args => ⟨?_, fun a ha => ?_⟩,
+    fun t items a ha => ?_, fun t items => ?_, fun t v pats body rest => ⟨?_, fun p hp => ?_⟩,
+    fun id idx iter body => ?_, token_mem_tokens kw⟩
+  · simp [Expr.tokens, token_mem_tokens kw l, token_mem_tokens kw r]
+  · simp [Expr.tokens]
+  · simp [Expr.tokens, token_mem_tokens kw f]
+  · simp only [Expr.tokens, List.mem_append]
+    exact .inr (tokens_sub_tokensEs kw a args ha _ (token_mem_tokens kw a))
+  · simp only [Expr.tokens, List.mem_cons]
+    exact .inr (tokens_sub_tokensEs kw a items ha _ (token_mem_tokens kw a))
+  · simp [Expr.tokens]
+  · simp [Expr.tokens]
+  · simp only [Expr.tokens, tokensCases, List.mem_cons, List.mem_append]
+    exact .inr (.inr (.inl (.inl (tokens_sub_tokensEs kw p pats hp _ (token_mem_tokens kw p)))))
+  · simp [Stmt.tokens, token_mem_tokens kw iter]
+
+
+/-! #### the summary -/
+
+/-- C12, runtime errors, the whole report — and **the table of blamed tokens**.
+
+    What a run reports for a runtime error: the text `s` (program or selector), an offset `pos`
+    and a message.  This theorem (for the rule table of src/parser.go) says: at `pos` a token
+    other than EOF is written in `s` (`SpelledIn`: the FIRST byte of the token, or of the content
+    of a string / regex literal), strictly inside `s`; the reported line is 1 + the number of
+    line feeds before `pos`, the reported column is the distance from the start of that line to
+    `pos` — so the caret stands under the first byte of that token — and the quoted line is that
+    line of `s`.
+
+    WHICH token that is, is said by the theorems of this section, one per place where the
+    evaluator raises a runtime error (all `throwRt` of Jqawk/Model/Eval.lean and Driver.lean;
+    left: model line / Go line of src/evaluator.go; right: the blamed token; it is the token the
+    Go code passes to `e.error` at that line):
+
+    | site (Eval.lean / evaluator.go) | fault | blamed token | theorem |
+    |---|---|---|---|
+    | 99, 103 via 439 / 820, 826 | `a = b`: target cannot be created; value cannot be copied | token of the left side `a` (leftmost token of a chain) | `blame_assignment` |
+    | 99 via 410 / 820 via 486 | `a++ a-- ++a --a`: target cannot be created | the operator `++` / `--` | `blame_incdec` |
+    | 103 via 410 | (`++`/`--` store a number, which always copies: `copyVal (.num x) = .ok _`; no theorem) | the operator, if it occurred | — |
+    | 203 via 438 / 600 | `a.b`, `a[b]`: lookup fails | token of `a` (leftmost) | `blame_member_access` |
+    | 241 / 213 | bad escape in a string literal / field name | the literal (first byte after the quote) | `blame_string_literal` |
+    | 246 / 227 | number literal does not parse (the lexer never produces one) | the literal | `blame_number_literal` |
+    | 276 / 166 | `$` without a current record (no run reaches it: every rule sets one) | the `$` | `blame_dollar` |
+    | 280 / 172 | unknown `$name` | that identifier | `blame_dollar_variable` |
+    | 290 via 267 / 329 | object literal: member value cannot be copied | the `{` of the literal | `blame_object_literal` |
+    | 302 via 260 / 883 | array literal: element cannot be copied | that element's token | `blame_array_element` |
+    | 302 via 257 / 883 | call: argument cannot be copied | that argument's token | `blame_call_argument` |
+    | 318 via 265 / 290 | `match`: call depth limit on entering an arm | the `match` keyword | `blame_match_depth` |
+    | 339 / 354 | literal pattern cannot be compared with the subject | the literal pattern | `blame_match_literal` (+ `blame_match_pattern_node`) |
+    | 346 / 375 | unsupported pattern | the pattern's token (`Expr.token`) | `blame_match_pattern_unsupported` (+ `blame_match_pattern_node`) |
+    | 379, 388, 394 via 258 / 415, 427, 456 | call: native / method error, depth limit, not a function | token of the callee expression (leftmost) | `blame_call` |
+    | 413 / 498 | unknown unary operator (never parsed: `parse_ops`, Lemmas/ParserOps.lean) | the operator | `blame_unknown_unary_operator` |
+    | 434 / 573 | `a is X`, X not a name (never parsed: `parse_wf`, Lemmas/ParserWF.lean) | X's token | `blame_is_type_name` |
+    | 445 / 704, 709 | `~` `!~`: right side not a pattern / invalid | token of the RIGHT operand | `blame_regex_operand` |
+    | 446 / 644 | comparison of incomparable values | token of the LEFT operand | `blame_cannot_compare` |
+    | 446 / 682, 689 | `/` `%` by zero | the operator | `blame_divide_by_zero` |
+    | 448 / 726 | unknown binary operator (never parsed: `parse_ops`) | the operator | `blame_unknown_binary_operator` |
+    | 491, 497 / 1014, 1022 | `for (x, i in e)`: unknown `$name` as x or as i | the loop variable x (also for i) | `blame_forin_variable` |
+    | 511 / 1075 | `for (x in e)`: e not iterable | e's token | `blame_forin_not_iterable` |
+    | Driver 172 / 1203 | `-r` selector selects a method / function | the selector's token (leftmost) | `blame_selector_copy` |
+
+    Each blamed token is one of the tokens of the node that faulted (`blamed_token_in_node`), every
+    token of a parsed program / selector carries the offset of a token of the text
+    (`parsed_blame_tokens`, `selector_tokens_are_tokens`) and is spelled there (`token_spelled`).
+    Together: **line and quoted line agree with the text, and the column points at the first byte
+    of the blamed token, which is a token of the offending construct.**
+    Not in the model: Go's `fuzz test loop limit` error (evaluator.go:972, 1005; only with the
+    fuzzing flag) and the two unreachable `default:` arms (evaluator.go:336, 1086). -/
+theorem blame_table (src : Bytes) (sels : List Bytes) (files : List InputFile)
+    (s : Bytes) (pos : Nat) (msg : String)
+    (h : (evalProgram expectedRuleTable src sels files).outcome = .runtimeErr s pos msg) :
+    (s = src ∨ s ∈ sels) ∧
+    (∃ t, IsToken s t ∧ t.tag ≠ .eof ∧ t.pos = pos ∧ SpelledIn s t) ∧ pos < s.length ∧
+    (splitLines s)[(getLineAndCol s pos).line - 1]? = some (getLineAndCol s pos).srcLine ∧
+    (getLineAndCol s pos).col ≤ (getLineAndCol s pos).srcLine.length ∧
+    (getLineAndCol s pos).col ≤ pos ∧
+    (s.take (pos - (getLineAndCol s pos).col)).count 10 + 1 = (getLineAndCol s pos).line ∧
+    (10 : UInt8) ∉ (s.drop (pos - (getLineAndCol s pos).col)).take (getLineAndCol s pos).col ∧
+    (pos - (getLineAndCol s pos).col = 0 ∨ s[pos - (getLineAndCol s pos).col - 1]? = some 10) := by
+  obtain ⟨hs, t, h1, h2, h3, h4, h5⟩ := runtime_error_pos_src src sels files s pos msg h
+  have hle : pos ≤ s.length := Nat.le_of_lt h5
+  obtain ⟨a1, a2⟩ := srcLine_is_line_N s pos hle
+  obtain ⟨b1, b2, b3, b4⟩ := col_is_distance s pos hle
+  exact ⟨hs, ⟨t, h1, h2, h3, h4⟩, h5, a1, a2, b1, b2, b3, b4⟩
+
+/-! #### instances: each fault occurs, at the stated token
+
+  Whole runs (program text → parser → evaluator): the outcome is a runtime error at the offset
+  of the blamed token, whose first byte stands there, with the stated message.  For the four
+  faults no parsed program reaches, hand-built nodes. -/
+
+/-- `blame_divide_by_zero`: the `/` (offset 15) and the `%` (offset 14) -/
+example : (match (evalProgram expectedRuleTable b!"BEGIN { x = 10 / 0 }" [] []).outcome with
+    | .runtimeErr s pos msg => pos == 15 && s[pos]? == some 47 && msg == "divide by zero"
+    | _ => false) = true := by decide +kernel
+example : (match (evalProgram expectedRuleTable b!"BEGIN { x = 7 % 0.5 }" [] []).outcome with
+    | .runtimeErr s pos msg => pos == 14 && s[pos]? == some 37 && msg == "divide by zero"
+    | _ => false) = true := by decide +kernel
+/-- … its hypotheses on a hand-built node: both operands evaluate, the divisor's value is zero -/
+example : (match evalExpr Program.empty 1 (.lit ⟨.num, 12, b!"10"⟩) default with
+    | .ok cl s1 => (match evalExpr Program.empty 1 (.lit ⟨.num, 17, b!"0"⟩) s1 with
+      | .ok cr s2 => cl == 0 && cr == 1 && (s2.heap.get cr).asNum.isZero | _ => false)
+    | _ => false) = true := by decide +kernel
+/-- `blame_cannot_compare`: `o.k < 2` with an array in `o.k` blames the `o` (offset 29, on the
+    second line), not the `<`; line 2, column 6 -/
+example : (match (evalProgram expectedRuleTable b!"BEGIN { o = {\"k\": [1]}\n  x = o.k < 2 }" [] []).outcome with
+    | .runtimeErr s pos msg => pos == 29 && s[pos]? == some 111 && msg == "cannot compare" &&
+        getLineAndCol s pos == ⟨b!"  x = o.k < 2 }", 2, 6⟩
+    | _ => false) = true := by decide +kernel
+example : (Val.arr 0).kind ≠ .unknown ∧ (Val.num F64.one).kind ≠ .unknown ∧
+    (Val.arr 0).compare (.num F64.one) = .error "cannot compare" := ⟨by decide, by decide, by rfl⟩
+/-- `blame_regex_operand`: the right operand `1` (offset 18); the content of `"("` (offset 19) -/
+example : (match (evalProgram expectedRuleTable b!"BEGIN { x = \"a\" ~ 1 }" [] []).outcome with
+    | .runtimeErr s pos msg => pos == 18 && s[pos]? == some 49 &&
+        msg == "a regex or a string must appear on the right hand side of ~"
+    | _ => false) = true := by decide +kernel
+example : (match (evalProgram expectedRuleTable b!"BEGIN { x = \"a\" ~ \"(\" }" [] []).outcome with
+    | .runtimeErr s pos msg => pos == 19 && s[pos]? == some 40 && msg == "invalid regex"
+    | _ => false) = true := by decide +kernel
+/-- `blame_is_type_name`, `blame_unknown_binary_operator`, `blame_unknown_unary_operator`: nodes
+    the parser never builds -/
+example : (match evalExpr Program.empty 3
+      (.binary (.lit ⟨.num, 0, b!"1"⟩) (.lit ⟨.num, 5, b!"2"⟩) ⟨.is, 2, []⟩) default,
+      evalExpr Program.empty 3
+      (.binary (.lit ⟨.num, 0, b!"1"⟩) (.lit ⟨.num, 5, b!"2"⟩) ⟨.comma, 2, []⟩) default,
+      evalExpr Program.empty 3 (.unary (.lit ⟨.num, 3, b!"1"⟩) ⟨.comma, 1, []⟩ false) default with
+    | .err (.runtime p1 m1) _, .err (.runtime p2 m2) _, .err (.runtime p3 m3) _ =>
+      p1 == 5 && m1 == "expected a type name" && p2 == 2 && m2 == "unknown operator" &&
+      p3 == 1 && m3 == "unknown operator"
+    | _, _, _ => false) = true := by decide +kernel
+example : isBinaryTag .comma = false ∧ isUnaryTag .comma = false ∧
+    ∀ t, Expr.lit ⟨.num, 5, b!"2"⟩ ≠ .ident t := ⟨by decide, by decide, fun _ h => by cases h⟩
+/-- `blame_member_access`: `a[-5]` on a one-element array blames the `a` (offset 21) -/
+example : (match (evalProgram expectedRuleTable b!"BEGIN { a = [1]; x = a[-5] }" [] []).outcome with
+    | .runtimeErr s pos msg => pos == 21 && s[pos]? == some 97 && msg == "index out of range"
+    | _ => false) = true := by decide +kernel
+example : (match getMember ⟨#[.arr 0, .num (F64.ofInt (-5))], #[#[]], #[]⟩ (.arr 0)
+      (.num (F64.ofInt (-5))) with
+    | .error m => m == "index out of range" | _ => false) = true := by decide +kernel
+/-- `blame_assignment`, both cases: a member of a number cannot be created (the `x`, offset 15);
+    a function cannot be copied (the `y`, offset 34) -/
+example : (match (evalProgram expectedRuleTable b!"BEGIN { x = 1; x.a = 2 }" [] []).outcome with
+    | .runtimeErr s pos msg => pos == 15 && s[pos]? == some 120 && msg == "cannot set member on a scalar"
+    | _ => false) = true := by decide +kernel
+example : (match (evalProgram expectedRuleTable b!"function f() { return 1 }\nBEGIN { y = f }" [] []).outcome with
+    | .runtimeErr s pos msg => pos == 34 && s[pos]? == some 121 && msg == "cannot copy a function"
+    | _ => false) = true := by decide +kernel
+/-- `blame_incdec`: postfix and prefix both blame the `++` (offsets 18 and 15), not the `x` -/
+example : (match (evalProgram expectedRuleTable b!"BEGIN { x = 1; x.a++ }" [] []).outcome,
+      (evalProgram expectedRuleTable b!"BEGIN { x = 1; ++x.a }" [] []).outcome with
+    | .runtimeErr s1 p1 m1, .runtimeErr s2 p2 _ => p1 == 18 && s1[p1]? == some 43 &&
+        m1 == "cannot set member on a scalar" && p2 == 15 && s2[p2]? == some 43
+    | _, _ => false) = true := by decide +kernel
+example : needsCreate (.nil (some ⟨0, .str b!"a"⟩)) = true ∧ needsCreate (.num F64.one) = false ∧
+    copyVal (.fn 0) = .error "cannot copy a function" ∧
+    (match Re.compile b!"(" with | .invalid => true | _ => false) = true :=
+  ⟨by decide, by decide, by rfl, by decide +kernel⟩
+/-- `blame_string_literal`: the offset is that of the first byte after the opening quote -/
+example : (match (evalProgram expectedRuleTable b!"BEGIN { x = \"a\\q\" }" [] []).outcome with
+    | .runtimeErr s pos msg => pos == 13 && s[pos]? == some 97 && s[pos - 1]? == some 34 &&
+        msg == "unknown escape char"
+    | _ => false) = true := by decide +kernel
+/-- `blame_number_literal`, `blame_dollar`: a token the lexer never produces; a state no run has -/
+example : (match evalExpr Program.empty 1 (.lit ⟨.num, 4, b!"1x"⟩) default,
+      evalExpr Program.empty 1 (.ident ⟨.dollar, 6, []⟩) default with
+    | .err (.runtime p1 m1) _, .err (.runtime p2 m2) _ =>
+      p1 == 4 && m1 == "could not parse number" && p2 == 6 && m2 == "unknown variable $"
+    | _, _ => false) = true := by decide +kernel
+example : F64.parse b!"1x" = none ∧ (default : St).ruleRoot = none := by decide +kernel
+/-- `blame_dollar_variable`: `$foo` (offset 12) -/
+example : (match (evalProgram expectedRuleTable b!"BEGIN { x = $foo }" [] []).outcome with
+    | .runtimeErr s pos msg => pos == 12 && s[pos]? == some 36 && msg == "unknown variable"
+    | _ => false) = true := by decide +kernel
+/-- `blame_object_literal` (the `{`, offset 38), `blame_array_element` (the `f`, offset 42, not
+    the `[`), `blame_call_argument` (the `f`, offset 47, not `printf`) -/
+example : (match (evalProgram expectedRuleTable
+      b!"function f() { return 1 }\nBEGIN { x = {\"a\": f} }" [] []).outcome,
+      (evalProgram expectedRuleTable b!"function f() { return 1 }\nBEGIN { x = [1, f] }" [] []).outcome,
+      (evalProgram expectedRuleTable
+      b!"function f() { return 1 }\nBEGIN { printf(\"%s\", f) }" [] []).outcome with
+    | .runtimeErr s1 p1 m1, .runtimeErr s2 p2 _, .runtimeErr s3 p3 _ =>
+      p1 == 38 && s1[p1]? == some 123 && m1 == "cannot copy a function" &&
+      p2 == 42 && s2[p2]? == some 102 && p3 == 47 && s3[p3]? == some 102
+    | _, _, _ => false) = true := by decide +kernel
+/-- `blame_call`: not a function (the `x`, offset 15); a builtin's error (`num`, offset 12); a
+    method's error blames the receiver chain's first token (the `s`, offset 21); the depth
+    limit (a hand-built state with 4099 open frames: the `f`, offset 23; a run reaches it by
+    runaway recursion, `function f(x) { return f(x) }`) -/
+example : (match (evalProgram expectedRuleTable b!"BEGIN { x = 1; x(2) }" [] []).outcome,
+      (evalProgram expectedRuleTable b!"BEGIN { y = num() }" [] []).outcome,
+      (evalProgram expectedRuleTable b!"BEGIN { s = \"x\"; y = s.split(1) }" [] []).outcome with
+    | .runtimeErr s1 p1 m1, .runtimeErr s2 p2 m2, .runtimeErr s3 p3 m3 =>
+      p1 == 15 && s1[p1]? == some 120 && m1 == "attempted to call a non-function" &&
+      p2 == 12 && s2[p2]? == some 110 && m2 == "expected n argument(s)" &&
+      p3 == 21 && s3[p3]? == some 115 && m3 == "wrong argument type"
+    | _, _, _ => false) = true := by decide +kernel
+example : (match evalExpr ⟨[], [⟨⟨.ident, 9, b!"f"⟩, [], .block Token.zero []⟩]⟩ 5
+      (.call (.ident ⟨.ident, 23, b!"f"⟩) [])
+      { (default : St) with heap := (Heap.empty.alloc (.fn 0)).2,
+                            frames := ⟨b!"<root>", [(b!"f", 0)]⟩ :: List.replicate 4098 default } with
+    | .err (.runtime pos msg) _ => pos == 23 && msg == "call depth limit exceeded"
+    | _ => false) = true := by decide +kernel
+/-- `blame_match_depth`: a hand-built state with 4098 open frames; the subject evaluates and the
+    identifier pattern matches, then the `match` token (offset 7) is blamed -/
+example : (match evalExpr Program.empty 5
+      (.match_ ⟨.match_, 7, []⟩ (.lit ⟨.num, 14, b!"1"⟩)
+        [.mk [.ident ⟨.ident, 19, b!"y"⟩] (.expr (.lit ⟨.num, 24, b!"2"⟩))])
+      { (default : St) with frames := List.replicate 4098 default } with
+    | .err (.runtime pos msg) _ => pos == 7 && msg == "call depth limit exceeded"
+    | _ => false) = true := by decide +kernel
+/-- `blame_match_literal` (the pattern `1`, offset 33), `blame_match_pattern_unsupported` (the
+    `-` of the pattern `-1`, offset 24; nested in an array pattern, offset 32) -/
+example : (match (evalProgram expectedRuleTable
+      b!"BEGIN { a = [1]; x = match (a) { 1 => 2 } }" [] []).outcome,
+      (evalProgram expectedRuleTable b!"BEGIN { x = match (1) { -1 => 2 } }" [] []).outcome,
+      (evalProgram expectedRuleTable
+      b!"BEGIN { x = match ([1,2]) { [1, -2] => 2 } }" [] []).outcome with
+    | .runtimeErr s1 p1 m1, .runtimeErr s2 p2 m2, .runtimeErr s3 p3 _ =>
+      p1 == 33 && s1[p1]? == some 49 && m1 == "cannot compare" &&
+      p2 == 24 && s2[p2]? == some 45 && m2 == "not supported in match expressions" &&
+      p3 == 32 && s3[p3]? == some 45
+    | _, _, _ => false) = true := by decide +kernel
+example : patSupported (.unary (.lit ⟨.num, 25, b!"1"⟩) ⟨.minus, 24, []⟩ false) = false := by decide
+/-- … the second alternative of the second case (the `-` of `-5`, offset 35); the second member of
+    an object literal still blames the `{` (offset 38) -/
+example : (match (evalProgram expectedRuleTable
+      b!"BEGIN { x = match (3) { 1 => 2, 2, -5 => 3 } }" [] []).outcome,
+      (evalProgram expectedRuleTable
+      b!"function f() { return 1 }\nBEGIN { x = {\"a\": 1, \"b\": f} }" [] []).outcome with
+    | .runtimeErr s1 p1 _, .runtimeErr s2 p2 _ =>
+      p1 == 35 && s1[p1]? == some 45 && p2 == 38 && s2[p2]? == some 123
+    | _, _ => false) = true := by decide +kernel
+/-- `blame_forin_variable`: `$q` as loop variable (offset 13); as INDEX variable the loop
+    variable `x` (offset 13) is blamed, not `$q` (offset 16) -/
+example : (match (evalProgram expectedRuleTable b!"BEGIN { for ($q in [1]) { } }" [] []).outcome,
+      (evalProgram expectedRuleTable b!"BEGIN { for (x, $q in [1]) { } }" [] []).outcome with
+    | .runtimeErr s1 p1 m1, .runtimeErr s2 p2 m2 =>
+      p1 == 13 && s1[p1]? == some 36 && m1 == "unknown variable" &&
+      p2 == 13 && s2[p2]? == some 120 && s2[16]? == some 36 && m2 == "unknown variable"
+    | _, _ => false) = true := by decide +kernel
+/-- `blame_forin_not_iterable`: the `5` (offset 18); the first token of `1 + 2` (offset 21) -/
+example : (match (evalProgram expectedRuleTable b!"BEGIN { for (x in 5) { } }" [] []).outcome,
+      (evalProgram expectedRuleTable b!"BEGIN { for (x, i in 1 + 2) { } }" [] []).outcome with
+    | .runtimeErr s1 p1 m1, .runtimeErr s2 p2 _ =>
+      p1 == 18 && s1[p1]? == some 53 && m1 == "not iterable" && p2 == 21 && s2[p2]? == some 49
+    | _, _ => false) = true := by decide +kernel
+/-- `blame_selector_copy`: `-r '  $.a.length'` selects a method: the `$` (offset 2 of the
+    selector text) -/
+example : (match (evalProgram expectedRuleTable b!"{ print }" [b!"  $.a.length"]
+      [⟨b!"f", b!"{\"a\":[1]}", .eof⟩]).outcome with
+    | .runtimeErr s pos msg => s == b!"  $.a.length" && pos == 2 && s[pos]? == some 36 &&
+        msg == "cannot copy a nativefunction"
+    | _ => false) = true := by decide +kernel
 
 end Jqawk.C12
